@@ -261,6 +261,15 @@ TAG_IDENTITY_FNS = (
 )
 
 
+SHAPE_KEEPING_OK = ('std::result::Result::<T, E>::map_err', 'std::result::Result::<T, E>::as_ref')
+SHAPE_KEEPING_ERR = ('std::result::Result::<T, E>::map', 'std::result::Result::<T, E>::as_ref')
+SHAPE_KEEPING_FNS = (
+    'std::option::Option::<T>::map', 'std::option::Option::<T>::as_deref', 'std::option::Option::<T>::as_deref_mut',
+    'std::option::Option::<&T>::cloned', 'std::option::Option::<&T>::copied', 'std::option::Option::<T>::zip',
+    'std::option::Option::<T>::inspect', 'std::option::Option::<T>::take',
+) + tuple(set(SHAPE_KEEPING_OK + SHAPE_KEEPING_ERR))
+
+
 def is_identity_call(t):
     return t.get('fn') in IDENTITY_FNS
 
@@ -414,6 +423,7 @@ class Interp:
         self.units_seen = set()
         self.stats = {'units': 0, 'steps': 0, 'awaits': 0, 'calls': 0}
         self._csc = {}
+        self._site_body = {}
         self._cpc = {}
         self.unresolved = []   # analysis errors (unresolvable awaits)
         self._cur_shapes = ()
@@ -812,10 +822,46 @@ class Interp:
                     else:
                         outs_.append((x, 'none'))
                 return finish(outs_)
+        if fn in ('std::iter::Iterator::find', 'std::iter::Iterator::any', 'std::iter::Iterator::all') and len(t['args']) == 2:
+            # a search for the first Err / Ok of a collection of results with a closure that is just is_err() / is_ok()
+            tg = tag_of_operand(t['args'][0], tags)
+            pred = self._result_predicate(fr.body, t['args'][1])
+            if tg is not None and tg.startswith('vec(') and pred is not None:
+                inner = tg[4:-1]
+                has_err = head(inner) == 'err'
+                hit = has_err if pred == 'is_err' else True       # is_ok: some element may be Ok in either case
+                res = d.on_leaf_call(self, fr, tok, tags, bi, t, fn)
+                name = fn.split('::')[-1]
+                outs_ = []
+                for (x, _tg) in res:
+                    if name == 'find':
+                        if pred == 'is_err':
+                            outs_.append((x, 'some(err)' if has_err else 'none'))
+                        else:
+                            outs_.append((x, 'some(ok())'))
+                            outs_.append((x, 'none'))
+                    elif name == 'any':
+                        if pred == 'is_err':
+                            outs_.append((x, 'T' if has_err else 'F'))
+                        else:
+                            outs_ += [(x, 'T'), (x, 'F')]
+                    else:
+                        if pred == 'is_ok':
+                            outs_.append((x, 'F' if has_err else 'T'))
+                        else:
+                            outs_ += [(x, 'T'), (x, 'F')]
+                return finish(outs_)
         if is_tag_identity_call(t) and t['args']:
             tg = tag_of_operand(t['args'][0], tags)
             res = d.on_leaf_call(self, fr, tok, tags, bi, t, fn)
             return finish([(x, tg if tag is None else tag) for (x, tag) in res])
+        if fn in SHAPE_KEEPING_FNS and t['args']:
+            # Option/Result combinators that keep the variant: None stays None, Some(..) stays Some(..)
+            h = head(tag_of_operand(t['args'][0], tags))
+            keep = {'none': 'none', 'some': 'some()', 'ok': 'ok()' if fn in SHAPE_KEEPING_OK else None,
+                    'err': 'err' if fn in SHAPE_KEEPING_ERR else None}.get(h)
+            res = d.on_leaf_call(self, fr, tok, tags, bi, t, fn)
+            return finish([(x, keep if tag is None else tag) for (x, tag) in res])
 
         callee = self.resolve_callee(fr, t)
         if callee is not None:
@@ -862,12 +908,45 @@ class Interp:
 
     # ------------------------------------------------------------------ awaits
     def creation_sites(self, body, fn_path):
+        """Call terminators that create a future of fn_path in this body - or, when the body has none, in a
+        closure defined inside it (futures built by `iter().map(|x| self.f(x)).collect()` and then joined)"""
         k = (body.path, fn_path)
         c = self._csc.get(k)
         if c is None:
             c = [(bi, t) for bi, t in body.calls() if t.get('fn') == fn_path]
+            if not c:
+                pre = body.path + '::{closure'
+                for cb in self.f.body_list:
+                    if cb.path.startswith(pre) and not cb.is_coroutine:
+                        for bi, t in cb.calls():
+                            if t.get('fn') == fn_path:
+                                c.append((bi, t))
+                                self._site_body[id(t)] = cb
             self._csc[k] = c
         return c
+
+    def _result_predicate(self, body, operand):
+        """'is_err' / 'is_ok' when the closure operand only tests its argument with Result::is_err / is_ok"""
+        if operand['k'] not in ('copy', 'move'):
+            return None
+        ty = self.f.types[body.locals[operand['pl']['l']]]
+        cp = ty.get('p') if ty.get('k') == 'closure' else None
+        cb = self.f.body(cp) if cp else None
+        if cb is None:
+            return None
+        names = [(t.get('fn') or '').split('::')[-1] for _bi, t in cb.calls()]
+        names = [n for n in names if n not in ('deref', 'as_ref')]
+        if names == ['is_err'] or names == ['is_ok']:
+            return names[0]
+        return None
+
+    def site_frame(self, fr, term):
+        """the frame in which the operands of a creation site are to be read (a closure of fr.body: a frame of
+        that closure with the generic context of fr)"""
+        cb = self._site_body.get(id(term)) if term is not None else None
+        if cb is None:
+            return fr
+        return Frame(cb, fr.ctx, (), fr.chain, ())
 
     def creation_of_poll(self, fr, t, fn_path):
         """The call terminator that created the future polled by `t` (through
@@ -1001,16 +1080,18 @@ class Interp:
                 one = self.creation_of_poll(fr, t, fu.path)
                 term = one[1] if one is not None else None
                 ctx = self.p.bind(fnb, fu.targs, ())
-                at = d.argtags(self, fr, tok, tags, term, fnb) if term is not None else ()
+                sfr = self.site_frame(fr, term)
+                at = d.argtags(self, sfr, tok, tags if sfr is fr else {}, term, fnb) if term is not None else ()
                 if term is None and sites:
                     # several creation sites of one async fn in this body: keep
                     # the analysis sound by exploring each
                     outs = []
                     for (_sb, st_) in sites:
-                        at = d.argtags(self, fr, tok, tags, st_, fnb)
-                        outs += self._enter_co(fr, bi, tok, t, cb, ctx, at, fu, self.static_shapes(fr.body, st_))
+                        sfr = self.site_frame(fr, st_)
+                        at = d.argtags(self, sfr, tok, tags if sfr is fr else {}, st_, fnb)
+                        outs += self._enter_co(fr, bi, tok, t, cb, ctx, at, fu, self.static_shapes(sfr.body, st_))
                     return outs
-                return self._enter_co(fr, bi, tok, t, cb, ctx, at, fu, self.static_shapes(fr.body, term))
+                return self._enter_co(fr, bi, tok, t, cb, ctx, at, fu, self.static_shapes(sfr.body, term))
             cb = self.f.body(fu.path)
             if cb is None:
                 return d.on_leaf_await(self, fr, tok, tags, bi, t, fu)
